@@ -3,6 +3,8 @@ From Coq Require Import List NArith String Bool Sorted.
 From Gen Require Import Tables.
 From Model Require Import Base Names Flt Matches Detect.
 From Proofs Require Import FloatLaws DetectRestrict DetectPartition RangesFacts.
+From Model Require Import SbLangs.
+From Proofs Require Import SbLangsFacts.
 From Model Require Import F32.
 From Proofs Require Import F32Laws.
 Import ListNotations.
@@ -71,3 +73,11 @@ Theorem C10_partition_binary32 :
     exists inc exc, Part F32ops (make_ctx F32ops R b cfg inc exc) r.
 Proof. intros R. exact (C10_partition F32ops R F32_CmpLaws). Qed.
 Print Assumptions C10_partition_binary32.
+
+(* "in general, a fixed function of the encoding": the language list of a single-byte encoding is computed by
+   Model/SbLangs.v from generated tables only (compared with the library for every supported name on every run);
+   it is never empty, so the most probable language of a match without languages is always its first element *)
+Theorem C10_single_byte_languages_never_empty :
+  forall e, In e IANA_SUPPORTED -> is_multi_byte e = false -> sb_langs32 e <> [].
+Proof. exact sb_langs_nonempty. Qed.
+Print Assumptions C10_single_byte_languages_never_empty.
